@@ -196,9 +196,10 @@ where
         Ok(trailer)
     }
     pub fn scan(&self) -> impl Iterator<Item = Result<ScanItem>> + '_ {
+        // like every other offset in the file, `startxref` is relative to the header
         let xref_offset = self.backend.locate_xref_offset().unwrap();
-        let slice = self.backend.read(self.start_offset .. xref_offset).unwrap();
-        let mut lexer = Lexer::with_offset(slice, 0);
+        let slice = self.backend.read(self.start_offset .. self.start_offset + xref_offset).unwrap();
+        let mut lexer = Lexer::with_offset(slice, self.start_offset);
         
         fn skip_xref(lexer: &mut Lexer) -> Result<()> {
             while lexer.next()? != "trailer" {
